@@ -6,9 +6,15 @@
 (*                                                                         *)
 (* Granularity: one element = one clock unit.  An element table E maps an  *)
 (* id <<client, clock>> to                                                 *)
-(*   [o, ro : Id, cont : STRING, sub : STRING, par : Id, kind : STRING]    *)
+(*   [o, ro : Id, cont : STRING, sub : STRING, par : Id, kind : STRING,    *)
+(*    w8 : Nat]                                                            *)
 (* (origin, right origin, container key, map key or "", id of the type    *)
-(* element owning the container or None for a root, content kind).        *)
+(* element owning the container or None for a root, content kind, width   *)
+(* in UTF-8 bytes).  A text element is one UTF-16 code unit: a character  *)
+(* of the BMP is one element (w8 = its UTF-8 length, 1..3), a character   *)
+(* outside the BMP is a surrogate pair = two elements with consecutive    *)
+(* clocks, the first one carrying the character (w8 = 4), the second one  *)
+(* nothing (w8 = 0).  Every other element has w8 = 1.                     *)
 (* A replica is a record                                                   *)
 (*   [lst  : container key -> Seq(Id)   YATA order incl. tombstones,       *)
 (*    dead : SUBSET Id                  tombstones among listed elements,  *)
@@ -38,6 +44,27 @@ EmptyReplica == [lst |-> <<>>, dead |-> {}, gone |-> {}, pend |-> {}, pds |-> {}
                  dlv |-> {}, ddel |-> {}]
 
 Have(R) == Units(R.lst) \cup R.gone
+
+---------------------------------------------------------------------------
+(* Characters.  The two elements of a surrogate pair are one character:    *)
+(* they are created, deleted and addressed together; a position between    *)
+(* them is not a position of the text.                                     *)
+IsLowHalf(E, x) == x \in DOMAIN E /\ E[x].w8 = 0
+IsHighHalf(E, x) == ~IsLowHalf(E, x) /\ IsLowHalf(E, <<x[1], x[2] + 1>>)
+CharFirst(E, x) == IF IsLowHalf(E, x) THEN <<x[1], x[2] - 1>> ELSE x
+CharLast(E, x) == IF IsHighHalf(E, x) THEN <<x[1], x[2] + 1>> ELSE x
+(* width of a listed element in an offset unit: "utf16" counts elements, "bytes" the UTF-8 length carried by a    *)
+(* character's first element                                                                                    *)
+WidthIn(E, x, unit) == IF unit = "bytes" /\ x \in DOMAIN E THEN E[x].w8 ELSE 1
+RECURSIVE WidthOfSeq(_, _, _, _)
+WidthOfSeq(E, v, n, unit) == IF n = 0 THEN 0 ELSE WidthOfSeq(E, v, n - 1, unit) + WidthIn(E, v[n], unit)
+(* gap p (0..Len(v)) of the visible list v is a character boundary *)
+OnCharBoundary(E, v, p) == p = Len(v) \/ ~IsLowHalf(E, v[p + 1])
+(* a visible list never shows half a character *)
+WholeChars(E, v) ==
+  \A i \in 1..Len(v) :
+     /\ IsLowHalf(E, v[i]) => (i > 1 /\ v[i - 1] = CharFirst(E, v[i]))
+     /\ IsHighHalf(E, v[i]) => (i < Len(v) /\ v[i + 1] = CharLast(E, v[i]))
 
 ---------------------------------------------------------------------------
 (* YATA integration: Item::detect_conflict / resolve_conflict (block.rs).  *)
